@@ -643,7 +643,7 @@ pub fn c11_farms(c: &FuCtx, rec: &mut Rec) {
             if funds_ok && !ok {
                 let live_after: usize = c.pre.farms.iter().filter(|f| f.lp_denom == lpd[*lp] && !farm_expired_by_statement(f, c.pre.now, cfg.farm_expiration_time)).count();
                 let id_clash = matches!(c.op, FuOp::CreateFarm { id: Some(i), .. } if c.pre.farm(&format!("m-{i}")).is_some());
-                let epochs_ok = start.map_or(true, |s| s > c.pre.cur && s <= c.pre.cur + 14) && end.map_or(true, |e| e > start.unwrap_or(c.pre.cur + 1));
+                let epochs_ok = start.map_or(true, |s| s > c.pre.cur && s <= c.pre.cur + cfg.max_farm_epoch_buffer as u64) && end.map_or(true, |e| e > start.unwrap_or(c.pre.cur + 1));
                 if live_after < cfg.max_concurrent_farms as usize && !id_clash && epochs_ok && reward.1 >= 1000 {
                     rec.viol_kf("C11_valid_creation_refused", format!("fee={fee} reward_denom_is_fee_denom={} funds_coins={}", fee.denom == rden, funds.len()), format!("fee {fee}, reward {} {rden}, funds {:?} refused: {}", reward.1, funds, c.out.err_text()));
                 }
